@@ -15,27 +15,16 @@ Theorem C07_parse_once : forall S t nn j log,
 Proof. exact parse_once. Qed.
 Print Assumptions C07_parse_once.
 
-(* ---- input model fields: serialize once per non-None occurrence (guard: F21 shape, ok_ty) ---- *)
-Definition C07_serialize_once_fields_full : Prop := forall S t v log,
+(* ---- input model fields: serialize once per non-None occurrence; every type, every schema-valid value.
+        (Unguarded since /repo 1ef155d made list items nullable; before, [S]! needed the guard ok_ty.) ---- *)
+Theorem C07_serialize_once_fields : forall S t v log,
   occ_ser S t false v = Some log -> dlog (input_sann S t true) v = Some log.
-
-Theorem C07_serialize_once_fields_partial : forall S t nl nn v log,
-  ok_ty nl t = true -> (nl = false -> nn = true \/ is_nonnull t = true) ->
-  occ_ser S t nn v = Some log -> dlog (input_sann S t nl) v = Some log.
-Proof. exact serialize_once_fields. Qed.
-Print Assumptions C07_serialize_once_fields_partial.
+Proof. intros S t v log. apply serialize_once_fields. discriminate. Qed.
+Print Assumptions C07_serialize_once_fields.
 
 Definition cS : scalar_cfg :=
   {| sc_type := "Any"; sc_ser := Some "vscal.ser_S"; sc_parse := Some "vscal.parse_S"; sc_import := None |}.
 Definition SS : schema := [("S", DCustom (Some cS))].
-
-(* F21: [S]! in an input field -> items lose Optional -> serialize sees None *)
-Theorem C07_serialize_once_fields_refuted : ~ C07_serialize_once_fields_full.
-Proof.
-  intro H. specialize (H SS (TNonNull (TList (TNamed "S"))) (PList [PNone]) [] eq_refl).
-  vm_compute in H. discriminate.
-Qed.
-Print Assumptions C07_serialize_once_fields_refuted.
 
 (* ---- top-level arguments ---- *)
 Definition C07_serialize_args_full : Prop := forall S t v log,
@@ -93,7 +82,8 @@ Print Assumptions C07_passthrough_serialize.
 Example C07_examples :
   sann_str (result_sann SS (TList (TNonNull (TList (TNamed "S")))) true) =
     "Optional[List[List[Optional[Annotated[Any, BeforeValidator(parse_S)]]]]]" /\
-  sann_str (input_sann SS (TNonNull (TList (TNamed "S"))) true) = "List[Annotated[Any, PlainSerializer(ser_S)]]" /\
+  sann_str (input_sann SS (TNonNull (TList (TNamed "S"))) true) =
+    "List[Optional[Annotated[Any, PlainSerializer(ser_S)]]]" /\
   vlog (result_sann SS (TList (TList (TNamed "S"))) true)
        (JArr [JArr [JStr "a"; JNull]; JNull; JArr [JInt 1]]) = Some [("parse_S", JStr "a"); ("parse_S", JInt 1)] /\
   occ_parse SS (TList (TList (TNamed "S"))) false
